@@ -18,6 +18,8 @@ pub struct ModelInfo {
 }
 
 pub struct Prog {
+    /// runs are abandoned when a model holds more ids than this at a poll (see id_budget_for)
+    pub id_budget: usize,
     pub model: Option<ModelInfo>,
     pub name: String,
     pub source: String,
@@ -61,12 +63,15 @@ pub fn load_progs(entries: &[Entry]) -> Result<Vec<Prog>, String> {
                 n_user_rules: mp.n_user_rules,
             });
             mp.program
+        } else if e.origin == "parse" {
+            lang::parse::parse_program(e.source).map_err(|err| format!("{}: {err}", e.name))?
         } else {
             return Err(format!("{}: unsupported origin {}", e.name, e.origin));
         };
         let paths = compile_paths(&program);
         let surjective = !program.has_nonsurjective();
         out.push(Prog {
+            id_budget: id_budget_for(&program),
             model,
             name: e.name.to_string(),
             source: e.source.to_string(),
@@ -77,6 +82,39 @@ pub fn load_progs(entries: &[Entry]) -> Result<Vec<Prog>, String> {
         });
     }
     Ok(out)
+}
+
+/// One iteration after the budget is exceeded must still be cheap, because the budget is only
+/// looked at when close_until polls its condition: a `!` rule on a function of arity k can turn n
+/// elements into n^k within one iteration, and the next iteration joins over those.
+fn id_budget_for(p: &Program) -> usize {
+    fn walk(ss: &[Stmt], p: &Program, k: &mut usize) {
+        fn term_arity(t: &Term, p: &Program, k: &mut usize) {
+            if let Term::App(r, args) = t {
+                *k = (*k).max(p.rels[*r].args.len());
+                for a in args {
+                    term_arity(a, p, k);
+                }
+            }
+        }
+        for s in ss {
+            match s {
+                Stmt::Then(Atom::Defined(t)) | Stmt::Then(Atom::DefinedAs(_, t)) => term_arity(t, p, k),
+                Stmt::Branch(bs) => bs.iter().for_each(|b| walk(b, p, k)),
+                Stmt::Match(_, cs) => cs.iter().for_each(|c| walk(&c.body, p, k)),
+                _ => {}
+            }
+        }
+    }
+    let mut k = 0;
+    for r in &p.rules {
+        walk(&r.stmts, p, &mut k);
+    }
+    match k {
+        0 | 1 => ID_BUDGET,
+        2 => 14,
+        _ => 6,
+    }
 }
 
 // ---------------------------------------------------------------------------------------------
@@ -415,6 +453,9 @@ pub fn gen_history(prog: &Prog, rng: &mut Rng, k: &HistKnobs, end_with_close: bo
                 }
             }
             1 => {
+                if p.rels.is_empty() {
+                    continue;
+                }
                 let rel = rng.usize_below(p.rels.len());
                 Op::Insert {
                     rel,
@@ -431,11 +472,16 @@ pub fn gen_history(prog: &Prog, rng: &mut Rng, k: &HistKnobs, end_with_close: bo
                     args: p.rels[rel].args.iter().map(|_| r(rng)).collect(),
                 }
             }
-            3 => Op::Equate {
-                sort: rng.usize_below(p.sorts.len()),
-                a: r(rng),
-                b: r(rng),
-            },
+            3 => {
+                if p.sorts.is_empty() {
+                    continue;
+                }
+                Op::Equate {
+                    sort: rng.usize_below(p.sorts.len()),
+                    a: r(rng),
+                    b: r(rng),
+                }
+            }
             4 => {
                 if closes >= k.max_closes {
                     continue;
@@ -474,7 +520,8 @@ pub enum OpResult {
 }
 
 pub const POLL_BUDGET: u32 = 120;
-pub const ID_BUDGET: usize = 1500;
+pub const ID_BUDGET: usize = 80;
+pub const TUPLE_BUDGET: usize = 4000;
 
 pub fn resolve(m: &dyn DynModel, sort: usize, r: Ref) -> Option<u32> {
     let n = m.n_ids(sort);
@@ -510,7 +557,11 @@ pub fn budgeted_close_with(prog: &Prog, m: &mut dyn DynModel, stop_at: Option<u3
             }
         }
         let ids: usize = (0..ns).map(|s| v.n_ids(s)).sum();
-        if k >= poll_budget || ids > ID_BUDGET {
+        let too_many_tuples = ids > 40 && {
+            let nr = prog.program.rels.len();
+            (0..nr).map(|r| v.iter_rel(r).map(|t| t.len()).unwrap_or(0)).sum::<usize>() > TUPLE_BUDGET
+        };
+        if k >= poll_budget || ids > prog.id_budget || too_many_tuples {
             budget_hit.set(true);
             return true;
         }
